@@ -105,7 +105,9 @@ class OPA(BaseModelSingleSet):
         """Compute the time-lage covariance matrix C(tau) of the data X."""
         sample_name = self.preprocessor.sample_name
         X0 = X.copy(deep=True)
-        Xtau = X.shift({sample_name: -tau}).dropna(sample_name)
+        # The last tau samples have no partner; select by position (dropna would compute a lazy array)
+        n_valid = X[sample_name].size - tau
+        Xtau = X.shift({sample_name: -tau}).isel({sample_name: slice(None, n_valid)})
 
         X0 = X0.rename({"mode": "feature1"})
         Xtau = Xtau.rename({"mode": "feature2"})
@@ -205,7 +207,14 @@ class OPA(BaseModelSingleSet):
             target,
             input_core_dims=[("feature1", "dummy")],
             output_core_dims=[("mode",), ("feature1", "mode")],
-            dask="allowed",
+            # numpy's eigh is not dispatched by dask: defer it as one task so that a
+            # dask-backed fit stays lazy
+            dask="parallelized",
+            output_dtypes=[target.dtype, target.dtype],
+            dask_gufunc_kwargs={
+                "allow_rechunk": True,
+                "output_sizes": {"mode": target.sizes["feature1"]},
+            },
         )
         keep = slice(None, -self._params["n_modes"] - 1, -1)
         mode_coords = range(1, self._params["n_modes"] + 1)
